@@ -25,7 +25,10 @@ Inductive lop :=
 | LReturn                 (* Limit.Return *)
 | LTBorrow (short : bool) (* TimeoutLimit.Borrow(timeout) *)
 | LTReturn                (* TimeoutLimit.Return *)
-| LReq (panics : bool).   (* one HTTP request through MaxConnsHandler; the handler body returns or panics *)
+| LReq (panics : bool)    (* one HTTP request through MaxConnsHandler; the handler body returns or panics *)
+| LCancel (k : nat).      (* the context of thread k's (current or last) request is cancelled - the client
+                             went away; the handler, if still inside, stays inside.  A holder's permit is
+                             given back at its return only: a context event changes no capacity *)
 
 Inductive lpc :=
 | LIdle       (* between calls *)
@@ -98,6 +101,7 @@ Definition lstep_thread (s : lstate) (t : nat) (th : lthread) (o : lop) : option
     | LReq _ =>
       if free then Some (lacquire s t (lgo th LInBody (S (lheld th))))
       else Some (lkeep s t (ldone th (lheld th) 0))
+    | LCancel _ => Some (lkeep s t (ldone th (lheld th) 1))
     end
   | LBorrowing => if free then Some (lacquire s t (ldone th (S (lheld th)) 1)) else None
   | LTWait =>
